@@ -23,3 +23,17 @@ add("C11", "exploration", [
      "shards": {"quick": 8, "thorough": 16}, "checks": {"quick": 4000, "thorough": 150000},
      "timeout": {"quick": 300, "thorough": 2400}},
 ])
+
+add("C07", "fault_enumeration", [
+    {"name": "c07-roundtrip", "bin": "c07", "pkg": ZZ + "c07", "run": "^TestVerifC07RoundTrip$",
+     "shards": {"quick": 4, "thorough": 8}, "checks": {"quick": 300, "thorough": 6000},
+     "timeout": {"quick": 300, "thorough": 2400}},
+    {"name": "c07-damage", "bin": "c07", "pkg": ZZ + "c07", "run": "^TestVerifC07Damage$",
+     "shards": {"quick": 8, "thorough": 16}, "checks": {"quick": 12, "thorough": 400},
+     "timeout": {"quick": 300, "thorough": 2400}},
+])
+
+CHECKS["C07"]["jobs"].append(
+    {"name": "c07-fuzz", "bin": "c07", "pkg": ZZ + "c07", "run": "^$", "tier_only": "thorough",
+     "fuzz": {"target": "FuzzVerifC07Decode", "time": {"thorough": "120s"}, "replay_test": "^TestVerifC07FuzzReplay$"},
+     "shards": {"thorough": 1}, "weight": 16, "timeout": {"thorough": 900}, "mem_gb": 24})
